@@ -474,12 +474,14 @@ class LDMService:
         ----------
         subscription_id : int
         """
+        # Looked up and removed in one critical section: of several concurrent requests for the
+        # same subscription only the one that removed it reports success.
         with self._lock:
-            subscriptions = self.subscriptions.copy()
-        to_remove = set()
-        for subscription in subscriptions:
-            if hash(subscription.subscription_request) == subscription_id:
-                to_remove.add(subscription)
-        for subscription in to_remove:
-            self.remove_subscription(subscription)
+            to_remove = [
+                subscription
+                for subscription in self.subscriptions
+                if hash(subscription.subscription_request) == subscription_id
+            ]
+            for subscription in to_remove:
+                self.remove_subscription(subscription)
         return bool(to_remove)
